@@ -378,6 +378,7 @@ proof fn lemma_tab_leading_line_has_empty_chrom(line: Seq<char>)
 //   .parse::<u32>()       ->  .parse_u32()          format!("Missing start: {:}", s) -> fmt_msg("Missing start", s)
 //   unwrap_or("")         ->  unwrap_or(Str::empty())
 //@extract closure bigtools/src/bed/bedparser.rs parse_bed res
+//@rule R16
 //@header fn parse_bed_fields(split: &mut VSplit, s: &Str) -> Result<(u32, u32, Str), BedValueError>
 //@sub /((?:\w+)(?:\s*\.\s*\w+(?:::<\w+>)?\(\))+)\s*\.ok_or_else\(\|\| (.*?)\)\?;/ => (match \1 { Some(v__) => v__, None => return Err(\2) }); min=0
 //@sub /((?:\w+)(?:\s*\.\s*\w+(?:::<\w+>)?\(\))+)\s*\.map_err\(\|_\w*\| (.*?)\)\?;/ => (match \1 { Ok(v__) => v__, Err(_) => return Err(\2) }); min=0
@@ -402,6 +403,7 @@ proof fn lemma_tab_leading_line_has_empty_chrom(line: Seq<char>)
 //@end
 
 //@extract fn bigtools/src/bed/bedparser.rs parse_bed
+//@rule R16
 //@sub /&'a str/ => &'a Str min=2
 //@sub /\(\|\| \{.*?\n    \}\)\(\)/ => parse_bed_fields(&mut split, s) min=1 count=1
 //@ret r
@@ -431,6 +433,7 @@ proof fn lemma_tab_leading_line_has_empty_chrom(line: Seq<char>)
 //@end
 
 //@extract closure bigtools/src/bed/bedparser.rs parse_bedgraph res
+//@rule R16
 //@header fn parse_bedgraph_fields(split: &mut VSplit, s: &Str) -> Result<(u32, u32, f32), BedValueError>
 //@sub /((?:\w+)(?:\s*\.\s*\w+(?:::<\w+>)?\(\))+)\s*\.ok_or_else\(\|\| (.*?)\)\?;/ => (match \1 { Some(v__) => v__, None => return Err(\2) }); min=0
 //@sub /((?:\w+)(?:\s*\.\s*\w+(?:::<\w+>)?\(\))+)\s*\.map_err\(\|_\w*\| (.*?)\)\?;/ => (match \1 { Ok(v__) => v__, Err(_) => return Err(\2) }); min=0
@@ -459,6 +462,7 @@ proof fn lemma_tab_leading_line_has_empty_chrom(line: Seq<char>)
 //@end
 
 //@extract fn bigtools/src/bed/bedparser.rs parse_bedgraph
+//@rule R16
 //@sub /&'a str/ => &'a Str min=2
 //@sub /\(\|\| \{.*?\n    \}\)\(\)/ => parse_bedgraph_fields(&mut split, s) min=1 count=1
 //@ret r
@@ -524,6 +528,7 @@ impl StreamingLineReader {
     /// the lines not read yet
     pub open spec fn lines(&self) -> Seq<Result<Seq<char>, IoErr>> { self.buf_read.lines() }
 //@extract method bigtools/src/utils/file/streaming_linereader.rs new "impl<B: BufRead> StreamingLineReader<B>"
+//@rule R16
 //@sub /\(bf: B\) -> StreamingLineReader<B>/ => (bf: VBufRead) -> StreamingLineReader min=1
 //@sub /String::new\(\)/ => Str::new() min=0
 //@ret r
@@ -533,6 +538,7 @@ impl StreamingLineReader {
         r.lines() == bf.lines(),
 //@end
 //@extract method bigtools/src/utils/file/streaming_linereader.rs read "impl<B: BufRead> StreamingLineReader<B>"
+//@rule R16
 //@sub /Option<io::Result<&'_ str>>/ => Option<Result<&'_ Str, IoErr>> min=1
 //@ret r
 //@sig
@@ -633,6 +639,7 @@ pub fn fnptr_parse_bedgraph() -> ParserBedGraph { ParserBedGraph }
 
 impl BedFileStreamBed {
 //@extract method bigtools/src/bed/bedparser.rs from_bed_file "BedFileStream<BedEntry, BufReader<R>>"
+//@rule R16
 //@sub /\(file: R\) -> BedFileStream<BedEntry, BufReader<R>>/ => (file: VBufRead) -> BedFileStreamBed min=1
 //@sub /BedFileStream \{/ => BedFileStreamBed { min=1
 //@sub /BufReader::new\(/ => buf_reader_new( min=0
@@ -644,6 +651,7 @@ impl BedFileStreamBed {
         r.bed.lines() == file.lines(),
 //@end
 //@extract method bigtools/src/bed/bedparser.rs next "StreamingBedValues for BedFileStream"
+//@rule R16
 //@sub /fn next\(&mut self\) -> Option<Result<\(&str, Self::Value\), BedValueError>>/ => fn next(&mut self) -> Option<Result<(&Str, BedEntry), BedValueError>> min=1
 //@sub /\(self\.parse\)\(/ => parse_bed( min=0
 //@ret r
@@ -666,6 +674,7 @@ impl BedFileStreamBed {
 
 impl BedFileStreamBedGraph {
 //@extract method bigtools/src/bed/bedparser.rs from_bedgraph_file "BedFileStream<Value, BufReader<R>>"
+//@rule R16
 //@sub /\(file: R\) -> BedFileStream<Value, BufReader<R>>/ => (file: VBufRead) -> BedFileStreamBedGraph min=1
 //@sub /BedFileStream \{/ => BedFileStreamBedGraph { min=1
 //@sub /BufReader::new\(/ => buf_reader_new( min=0
@@ -677,6 +686,7 @@ impl BedFileStreamBedGraph {
         r.bed.lines() == file.lines(),
 //@end
 //@extract method bigtools/src/bed/bedparser.rs next "StreamingBedValues for BedFileStream"
+//@rule R16
 //@sub /fn next\(&mut self\) -> Option<Result<\(&str, Self::Value\), BedValueError>>/ => fn next(&mut self) -> Option<Result<(&Str, Value), BedValueError>> min=1
 //@sub /\(self\.parse\)\(/ => parse_bedgraph( min=0
 //@ret r
@@ -859,6 +869,7 @@ impl VIterI {
 // Some(E), None => None }` (definition of Option::map; E verbatim).
 impl BedIteratorStream {
 //@extract method bigtools/src/bed/bedparser.rs next "StreamingBedValues for BedIteratorStream"
+//@rule R16
 //@sub /\(&str, V\)/ => (&Str, Val) min=1
 //@sub /^\s*use std::ops::Deref;\n/ => "" min=0
 //@sub /(\w+(?:\.\w+)*) == &(\w+(?:\.\w+)*)/ => cname_eq(&\1, &\2) min=0
@@ -886,6 +897,7 @@ impl BedIteratorStream {
 }
 impl BedInfallibleIteratorStream {
 //@extract method bigtools/src/bed/bedparser.rs next "StreamingBedValues\s+for BedInfallibleIteratorStream"
+//@rule R16
 //@sub /\(&str, V\)/ => (&Str, Val) min=1
 //@sub /^\s*use std::ops::Deref;\n/ => "" min=0
 //@sub /(\w+(?:\.\w+)*) == &(\w+(?:\.\w+)*)/ => cname_eq(&\1, &\2) min=0
